@@ -18,9 +18,9 @@ Lemma failed_load_keeps s n imp initf o :
   forall s' r, owner_load lower world s n imp initf o = (s', r) -> r <> Ok 0 ->
   s_cbs s' = s_cbs s.
 Proof.
-  intros Ho Hw s' r E Hr. unfold owner_load in E.
-  destruct (get_callback lower (s_cbs s) n); [inversion E; reflexivity|].
-  destruct (load_plugin_module lower world n imp) as [p| |]; try (inversion E; reflexivity).
+  intros Ho Hw s' r E Hr. unfold owner_load in E. cbv zeta in E.
+  destruct (get_callback lower (s_cbs s) (strip_py n)); [inversion E; reflexivity|].
+  destruct (load_plugin_module lower world (strip_py n) imp) as [p| |]; try (inversion E; reflexivity).
   unfold load_plugin_class in E. destruct initf; [inversion E; reflexivity|].
   set (c := mk_cb (s_next s) p) in *.
   assert (Hnd : NoDup (ids (s_cbs s ++ [c]))) by (apply (wf_nd_snoc lower (s_next s)); [exact Hw|reflexivity]).
@@ -31,6 +31,21 @@ Proof.
 Qed.
 
 (* ---- reload whose import fails (ImportError or anything else): the plugin is put back ---- *)
+Lemma reload_module_fails n imp :
+  imp <> 0 -> reload_module lower world n imp = ImpErr \/ reload_module lower world n imp = OtherExc.
+Proof.
+  intro H. unfold reload_module, load_plugin_module. destruct (N.leb 3 imp) eqn:E; [right; reflexivity|].
+  apply N.leb_gt in E. destruct (find_spec lower world n); [|left; reflexivity].
+  assert (imp = 1 \/ imp = 2) as [-> | ->] by lia; [left|right]; reflexivity.
+Qed.
+
+Lemma load_plugin_module_mod n imp p :
+  load_plugin_module lower world n imp = Mod p -> find_spec lower world n = Some p.
+Proof.
+  unfold load_plugin_module. destruct (find_spec lower world n) as [q|]; [|discriminate].
+  destruct imp as [|[[r|r|]|[r|r|]|]]; intro H; inversion H; reflexivity.
+Qed.
+
 Lemma filter_all_false {A} (p : A -> bool) l : (forall x, In x l -> p x = false) -> filter p l = [].
 Proof.
   induction l as [|a l IH]; simpl; intro H; [reflexivity|].
@@ -104,10 +119,8 @@ Proof.
     exists l'. split; [reflexivity|]. destruct S as [_ [HP' _]].
     eapply Permutation_trans; eauto. }
   destruct Hre as [l' [Er HPl]].
-  unfold load_plugin_module in E. destruct (find_spec lower world n) as [p|].
-  - destruct imp as [|[q|q|]]; [congruence| | |]; rewrite Er in E; inversion E; subst;
-      (split; [discriminate|exact HPl]).
-  - rewrite Er in E. inversion E; subst. split; [discriminate|exact HPl].
+  destruct (reload_module_fails n imp Himp) as [Em|Em]; rewrite Em, Er in E; inversion E; subst;
+    (split; [discriminate|exact HPl]).
 Qed.
 End Failure.
 
